@@ -415,6 +415,20 @@ impl<'a> Cmd<'a> {
 }
 
 /// A scratch directory under the work dir, removed on drop.
+/// Run `bin args` with a pseudo-terminal of `cols` columns as standard output and standard error (through the helper
+/// `tools/pty_run.py`; None when python3 or the helper is not to be had). What the terminal received is in `stdout`.
+pub fn pty_run(cols: u32, cwd: &Path, bin: &str, args: &[&str]) -> Option<Out> {
+  let helper = ["tools/pty_run.py", "/verif/tools/pty_run.py"].iter().map(PathBuf::from).find(|p| p.exists())?;
+  let helper = std::fs::canonicalize(helper).ok()?;
+  let o = Command::new("python3").arg(helper).arg(cols.to_string()).arg("24").arg(cwd).arg(bin).args(args).stdin(Stdio::null()).output().ok()?;
+  let text = String::from_utf8_lossy(&o.stdout).into_owned();
+  let mut lines = text.lines();
+  let hexed = lines.next()?;
+  let code: i32 = lines.next()?.trim().parse().ok()?;
+  let bytes: Vec<u8> = (0..hexed.len() / 2).filter_map(|i| u8::from_str_radix(&hexed[2 * i..2 * i + 2], 16).ok()).collect();
+  Some(Out { code: if code >= 0 { Some(code) } else { None }, signal: if code < 0 { Some(-code) } else { None }, stdout: bytes, stderr: vec![], timed_out: false })
+}
+
 pub struct Sandbox {
   pub root: PathBuf,
 }
